@@ -107,26 +107,37 @@ theorem readSkipLoop_spec (s : State) (request total : Nat) (hi : Inv s) (hf : s
         remaining r.2 = [] ∧ r.2.fatal = false) ∨
      (r.1 < 0 ∧ r.2.fatal = true ∧ (remaining s).length < request ∧ s.term = .err)) := by
   fun_induction readSkipLoop s request total
-  case case1 s request total hsrc hterm =>
+  case case1 s request total hsrc nxt more hlat ih =>
+    have hin : Inv { s with src := nxt, later := more } :=
+      { cbIn := hi.cbIn, bufLt := hi.bufLt, clientEq := hi.clientEq, prov := hi.prov,
+        eofSrc := by intro he; have := hi.eofSrc he; rw [hlat] at this; simp at this,
+        srcOk := hi.laterOk nxt (by simp [hlat]),
+        laterOk := fun n hn => hi.laterOk n (by simp [hlat, hn]) }
+    have hrem : remaining { s with src := nxt, later := more } = remaining s := by
+      simp [remaining, hsrc, hlat]
+    have := ih hin hf hcb hca hr
+    rw [hrem] at this
+    exact this
+  case case2 s request total hsrc hlat hterm =>
     have hrem : remaining s = [] := by
-      rw [remaining_eq s hi.clientEq, hcb, hsrc]
+      rw [remaining_eq s hi.clientEq, hcb]
       have : s.cblk.drop s.cnext = [] := List.drop_of_length_le (by have := hi.clientEq; omega)
-      simp [this]
+      simp [this, tailBytes, hsrc, hlat]
     refine ⟨{ hi with eofSrc := hi.eofSrc }, rfl, ⟨0, by simp; rfl⟩, Or.inr (Or.inr ⟨by simp, rfl, by simp [hrem]; exact hr, hterm⟩)⟩
-  case case2 s request total hsrc hterm =>
+  case case3 s request total hsrc hlat hterm =>
     have hrem : remaining s = [] := by
-      rw [remaining_eq s hi.clientEq, hcb, hsrc]
+      rw [remaining_eq s hi.clientEq, hcb]
       have : s.cblk.drop s.cnext = [] := List.drop_of_length_le (by have := hi.clientEq; omega)
-      simp [this]
-    refine ⟨{ hi with eofSrc := by intro _; exact ⟨hsrc, hterm⟩ }, rfl, ⟨0, by simp; rfl⟩, Or.inr (Or.inl ⟨by simp [hrem], by simp [hrem]; exact hr, hterm, ?_, hf⟩)⟩
+      simp [this, tailBytes, hsrc, hlat]
+    refine ⟨{ hi with eofSrc := by intro _; exact ⟨hsrc, hlat, hterm⟩ }, rfl, ⟨0, by simp; rfl⟩, Or.inr (Or.inl ⟨by simp [hrem], by simp [hrem]; exact hr, hterm, ?_, hf⟩)⟩
     exact hrem
-  case case3 s request total rest hsrc =>
+  case case4 s request total rest hsrc =>
     exfalso; exact hi.srcOk [] (by simp [hsrc]) rfl
-  case case4 s request total b bs rest hsrc n hn =>
+  case case5 s request total b bs rest hsrc n hn =>
     have hc := hi.clientEq
     have hd : s.cblk.drop s.cnext = [] := List.drop_of_length_le (by omega)
-    have hrem : remaining s = (b :: bs) ++ rest.flatten := by
-      rw [remaining_eq s hc, hcb, hsrc]; simp [hd]
+    have hrem : remaining s = (b :: bs) ++ (rest.flatten ++ s.later.flatten.flatten) := by
+      rw [remaining_eq s hc, hcb]; simp [hd, tailBytes, hsrc]
     have hn' : request ≤ (b :: bs).length := hn
     have hdrop : remaining { s with cblk := b :: bs, cnext := request, cavail := n - request, position := s.position + request, src := rest } = (remaining s).drop request := by
       rw [hrem]
@@ -143,20 +154,21 @@ theorem readSkipLoop_spec (s : State) (request total : Nat) (hi : Inv s) (hf : s
               prov := ⟨[], [], by simp [hcb]⟩,
               eofSrc := by
                 intro he; have := hi.eofSrc he; rw [hsrc] at this; simp at this,
-              srcOk := fun x hx => hi.srcOk x (by rw [hsrc]; exact List.mem_cons_of_mem _ hx) }
+              srcOk := fun x hx => hi.srcOk x (by rw [hsrc]; exact List.mem_cons_of_mem _ hx), laterOk := hi.laterOk }
     · rw [hrem]; simp at hn' ⊢; omega
-  case case5 s request total b bs rest hsrc n hn ih =>
+  case case6 s request total b bs rest hsrc n hn ih =>
     have hc := hi.clientEq
     have hd : s.cblk.drop s.cnext = [] := List.drop_of_length_le (by omega)
-    have hrem : remaining s = (b :: bs) ++ rest.flatten := by
-      rw [remaining_eq s hc, hcb, hsrc]; simp [hd]
+    have hrem : remaining s = (b :: bs) ++ (rest.flatten ++ s.later.flatten.flatten) := by
+      rw [remaining_eq s hc, hcb]; simp [hd, tailBytes, hsrc]
     have hn' : (b :: bs).length < request := by simpa [n] using hn
     have hin : Inv { s with position := s.position + n, src := rest } :=
       { cbIn := hi.cbIn, bufLt := hi.bufLt, clientEq := hi.clientEq, prov := hi.prov,
         eofSrc := by intro he; have := hi.eofSrc he; rw [hsrc] at this; simp at this,
-        srcOk := fun x hx => hi.srcOk x (by rw [hsrc]; exact List.mem_cons_of_mem _ hx) }
-    have hrem' : remaining { s with position := s.position + n, src := rest } = rest.flatten := by
-      rw [remaining_eq _ hin.clientEq]; simp [hcb, hd]
+        srcOk := fun x hx => hi.srcOk x (by rw [hsrc]; exact List.mem_cons_of_mem _ hx), laterOk := hi.laterOk }
+    have hrem' : remaining { s with position := s.position + n, src := rest } = rest.flatten ++ s.later.flatten.flatten := by
+      rw [remaining_eq _ hin.clientEq]; simp [hcb, hd, tailBytes]
+    generalize rest.flatten ++ s.later.flatten.flatten = T at hrem hrem'
     obtain ⟨i1, i2, ⟨k, ik⟩, i3⟩ := ih hin hf hcb hca (by omega)
     refine ⟨i1, i2, ⟨(b :: bs).length + k, ?_⟩, ?_⟩
     · rw [ik, hrem', hrem, List.drop_append]
@@ -165,7 +177,7 @@ theorem readSkipLoop_spec (s : State) (request total : Nat) (hi : Inv s) (hf : s
     rw [hrem'] at i3
     rw [hrem]
     have hnl : n = bs.length + 1 := by simp [n]
-    have hl : (b :: bs ++ rest.flatten).length = bs.length + 1 + rest.flatten.length := by
+    have hl : (b :: bs ++ T).length = bs.length + 1 + T.length := by
       simp; omega
     have hn2 : bs.length + 1 < request := by simpa using hn'
     rcases i3 with ⟨a1, a2, a3, a4, a5⟩ | ⟨a1, a2, a3, a4, a5⟩ | ⟨a1, a2, a3, a4⟩
@@ -187,7 +199,7 @@ theorem useBuffers_spec (s : State) (request : Nat) (hi : Inv s) :
     let r := useBuffers s request
     Inv r.1 ∧ r.2 ≤ request ∧ r.2 ≤ (remaining s).length ∧ remaining r.1 = (remaining s).drop r.2 ∧
     r.1.position = s.position + r.2 ∧ r.1.term = s.term ∧ r.1.fatal = s.fatal ∧ r.1.src = s.src ∧
-    r.1.skips = s.skips ∧ r.1.canSkip = s.canSkip ∧
+    r.1.skips = s.skips ∧ r.1.canSkip = s.canSkip ∧ r.1.later = s.later ∧
     (r.2 < request → r.1.cb = [] ∧ r.1.cavail = 0) := by
   intro r
   have hc := hi.clientEq
@@ -213,9 +225,9 @@ theorem useBuffers_spec (s : State) (request : Nat) (hi : Inv s) :
     · right; rw [h]; simp
     · left; omega
   rw [hr]
-  refine ⟨?_, by simp; omega, ?_, ?_, by simp; omega, rfl, rfl, rfl, rfl, rfl, ?_⟩
+  refine ⟨?_, by simp; omega, ?_, ?_, by simp; omega, rfl, rfl, rfl, rfl, rfl, rfl, ?_⟩
   · refine { cbIn := by have := hi.cbIn; simp; omega, bufLt := hi.bufLt, clientEq := by simp; omega,
-             prov := ?_, eofSrc := hi.eofSrc, srcOk := hi.srcOk }
+             prov := ?_, eofSrc := hi.eofSrc, srcOk := hi.srcOk, laterOk := hi.laterOk }
     rcases hsplit with h0 | h0
     · -- client untouched
       simp only [h0, Nat.add_zero]
@@ -242,7 +254,7 @@ theorem useBuffers_spec (s : State) (request : Nat) (hi : Inv s) :
     omega
   · have hc' : (s.cnext + m2) + (s.cavail - m2) = s.cblk.length := by omega
     rw [remaining_eq s hc, remaining_eq _ hc']
-    simp only [List.append_assoc]
+    simp only [List.append_assoc, tailBytes]
     rw [List.drop_append]
     rcases hsplit with h0 | h0
     · have : m1 + m2 - s.cb.length = 0 := by omega
@@ -273,10 +285,10 @@ theorem advance_spec (s : State) (n : Nat) (hi : Inv s) (hf : s.fatal = false) (
     GoodAdv s n (SkipsOk s.skips) (advance s n) := by
   unfold advance
   simp only [hf, Bool.false_eq_true, if_false]
-  obtain ⟨u1, u2, u3, u4, u5, u6, u7, u8, u9, u10, u11⟩ := useBuffers_spec s n hi
+  obtain ⟨u1, u2, u3, u4, u5, u6, u7, u8, u9, u10, u12, u11⟩ := useBuffers_spec s n hi
   generalize useBuffers s n = ub at *
   obtain ⟨s2, total⟩ := ub
-  simp only [] at u1 u2 u3 u4 u5 u6 u7 u8 u9 u10 u11 ⊢
+  simp only [] at u1 u2 u3 u4 u5 u6 u7 u8 u9 u10 u11 u12 ⊢
   by_cases h0 : n - total = 0
   · simp only [h0, if_true]
     have : total = n := by omega
@@ -287,11 +299,13 @@ theorem advance_spec (s : State) (n : Nat) (hi : Inv s) (hf : s.fatal = false) (
     obtain ⟨hcb, hca⟩ := u11 hlt
     have hc2 := u1.clientEq
     have hd2 : s2.cblk.drop s2.cnext = [] := List.drop_of_length_le (by omega)
-    have hrem2 : remaining s2 = s2.src.flatten := by
-      rw [remaining_eq s2 hc2, hcb, hd2]; simp
-    have hlen : (remaining s).length = total + s2.src.flatten.length := by
+    have hrem2 : remaining s2 = s2.src.flatten ++ s2.later.flatten.flatten := by
+      rw [remaining_eq s2 hc2, hcb, hd2]; simp [tailBytes]
+    have hlen : (remaining s).length = total + (s2.src.flatten ++ s2.later.flatten.flatten).length := by
       have : (remaining s2).length = (remaining s).length - total := by rw [u4]; simp
       rw [hrem2] at this; omega
+    have hlen2 : (s2.src.flatten ++ s2.later.flatten.flatten).length =
+        s2.src.flatten.length + s2.later.flatten.flatten.length := List.length_append
     -- the skip step
     have hskip : ∃ r s3, (if s2.canSkip then skipLoop s2 (n - total) 0 s2.skips else ((0 : Int), s2)) = (r, s3) ∧
         SrcOk s3.src ∧ s3 = { s2 with src := s3.src, skips := s3.skips } ∧
@@ -323,14 +337,20 @@ theorem advance_spec (s : State) (n : Nat) (hi : Inv s) (hf : s.fatal = false) (
                   exfalso
                   have hb := k1 b (by rw [hs]; simp)
                   rw [hs] at j3; simp at j3; exact hb j3.1,
-              srcOk := k1 }
+              srcOk := k1, laterOk := u1.laterOk }
     have hrem3 : remaining s3 = (remaining s).drop (total + j) := by
-      have : remaining s3 = s3.src.flatten := by
+      have : remaining s3 = s3.src.flatten ++ s2.later.flatten.flatten := by
         rw [remaining_eq s3 hi3.clientEq]
         have h1 : s3.cb = [] := by rw [k2]; exact hcb
         have h2 : s3.cblk.drop s3.cnext = [] := by rw [k2]; exact hd2
-        rw [h1, h2]; simp
-      rw [this, j3, ← hrem2, u4, List.drop_drop]
+        have h3 : s3.later = s2.later := by rw [k2]
+        rw [h1, h2]; simp [tailBytes, h3]
+      have hdj : (s2.src.flatten ++ s2.later.flatten.flatten).drop j =
+          s2.src.flatten.drop j ++ s2.later.flatten.flatten := by
+        rw [List.drop_append]
+        have hz : j - s2.src.flatten.length = 0 := by omega
+        rw [hz]; rfl
+      rw [this, j3, ← hdj, ← hrem2, u4, List.drop_drop]
     rcases j4 with j4 | ⟨j4, j5⟩
     · -- well-behaved answer
       have hr : ¬ r < 0 := by rw [j4]; omega
